@@ -151,6 +151,8 @@ pub const PAIR_PATHS: &[(&str, Option<usize>)] = &[
     ("pairSwapNative", Some(2)),
     ("pairSwapCw20Hook", Some(2)),
     ("pairSwapDirectCw20", Some(2)),
+    // LP tokens sent with a payload that is no hook message (empty, `{}`, unknown variant): seed C17-M
+    ("pairHookMalformed", Some(1)),
     ("routerHopNative", Some(2)),
     ("routerHopCw20", Some(2)),
     ("routerTwoHop", Some(2)),
@@ -163,12 +165,14 @@ pub const TRIO_PATHS: &[(&str, Option<usize>)] = &[
     ("trioSwapNative", Some(2)),
     ("trioSwapCw20Hook", Some(2)),
     ("trioSwapDirectCw20", Some(2)),
+    ("trioHookMalformed", Some(1)),
     ("trioCollectFees", None),
 ];
 pub const VAULT_PATHS: &[(&str, Option<usize>)] = &[
     ("vaultDeposit", Some(0)),
     ("vaultWithdrawHook", Some(1)),
     ("vaultWithdrawDirect", Some(1)),
+    ("vaultHookMalformed", Some(1)),
     ("vaultFlashLoan", Some(2)),
     ("vaultRouterLoan", Some(2)),
     ("vaultCollectFees", None),
@@ -1210,6 +1214,18 @@ impl World {
             }
             "pairWithdrawDirect" => {
                 ex(self.app.execute_contract(alice, target, &pair::ExecuteMsg::WithdrawLiquidity {}, &coins(amt / 10, "uluna")))
+            }
+            "pairHookMalformed" | "trioHookMalformed" | "vaultHookMalformed" => {
+                // three sends, each with a payload that is not a hook message; accepted if ANY of them is
+                let lp = self.lp.clone();
+                let payloads = [Binary::default(), Binary::from(b"{}".to_vec()), Binary::from(br#"{"unknown_hook":{}}"#.to_vec())];
+                let mut out = Err("all refused".to_string());
+                for pl in payloads {
+                    if self.send_cw20(&lp, &target, amt / 30, pl).is_ok() {
+                        out = Ok(());
+                    }
+                }
+                out
             }
             "pairSwapNative" => ex(self.app.execute_contract(
                 alice,
